@@ -94,9 +94,11 @@ Print Assumptions C15_expect_sound.
 Theorem C15_request_answer_sound : forall sro R0 tr j vs t tbl,
   expect sro lookup_prog register_prog (init R0) tr (fun _ => None) j = Some vs ->
   threads (exec sro lookup_prog register_prog tr (init R0)) j = Some t -> cont t = [] ->
-  call_view_reads_only = true /\ request_answer tbl (tres t) = Some (first_answer tbl vs).
+  call_view_reads_only = true /\ multiview_stateless = true /\
+  request_answer tbl (tres t) = Some (first_answer tbl vs).
 Proof. exact (fun sro R0 tr j vs t tbl He Ht Hc =>
-               conj facts_call_view_reads_only (request_answer_sound sro R0 tr j vs t tbl He Ht Hc)). Qed.
+               conj facts_call_view_reads_only
+                    (conj facts_multiview_stateless (request_answer_sound sro R0 tr j vs t tbl He Ht Hc))). Qed.
 Print Assumptions C15_request_answer_sound.
 
 (* every other value of the program parameters is refuted by a concrete schedule (also replayed on
